@@ -22,11 +22,14 @@ def run(chk):
     chk.rule("T.rect", "Rect::Contains(Rect) == closed inclusion, Rect::Intersects == closed boxes meet, Rect::IsEmpty == zero or negative "
              "extent, on every weak ordering of the eight coordinates; RectClip64::Execute uses them as: outside -> continue, "
              "inside -> result.emplace_back(path); continue")
+    chk.rule("T.location", "GetLocation(rec, pt, loc): strictly inside -> true/Inside; on the boundary -> false and an edge the point lies on; "
+             "outside -> true and a side the point lies beyond; all 25 weak orderings")
     chk.rule("LOOP", "nothing written while clipping one path is read while clipping the next ('path by path')")
     chk.rule("CLEAN", "RectClip64's scratch containers are empty again at every normal exit of Execute")
     for cfg in cfgs:
         db = AstDB(cfg)
         e3.rect_shortcuts(db, chk, cfg)
+        e3.location_table(db, chk, cfg)
         eng = e2.E2(db, chk, cfg, ["RectClip64", "RectClipLines64"])
         e2.check_classification(eng, RECT, chk, "RectClip64")
         f = db.one("RectClip64::Execute")
